@@ -218,7 +218,9 @@ yield1:
 	 * the buffer filled so far, if no more bytes could be read then
 	 * we'd proceed processing them (off < __ctx->bno + nrd */
 	if (UNLIKELY(!nrd && off < bno && memchr(off, '\n', bno - off) == NULL)) {
-		/* last line then, unyielded :| */
+		/* last line then, unyielded :|
+		 * finalise it like the others, there's room for CHUNK_SIZE bytes */
+		*bno = '\0';
 		set_loff(ctx, ctx->tot_lno, bno - ctx->buf);
 		off = bno;
 		/* count it as line and check if we need more */
